@@ -310,6 +310,15 @@ def fs_source():
                 store.add(o)
         finally:
             fs.os, fs.io = saved
+        # a second view of the same data through symbolic links: a linked type directory, a linked per-id directory, a linked file
+        ffs.makedirs("/view")
+        for t in ffs.listdir("/fs"):
+            if t == "identity":
+                ffs.symlink("/fs/identity", "/view/identity")                     # whole type directory is a link
+            else:
+                ffs.makedirs("/view/" + t)
+                for e in ffs.listdir("/fs/" + t):
+                    ffs.symlink("/fs/%s/%s" % (t, e), "/view/%s/%s" % (t, e))     # each per-id directory / flat file is a link
         _FS_STATE["src"] = (ffs, store)
     return _FS_STATE["src"]
 
@@ -336,6 +345,11 @@ def run_opt_case(spec, route=0):
             w = sorted((o["id"], str(stix2.utils.parse_into_datetime(o["modified"]))) for o in apply_common_filters(POP, filters))
             if r != w:
                 return False
+        # the same query through the view made of symbolic links gives the same objects
+        linked = sorted((o["id"], str(stix2.utils.parse_into_datetime(stix2.utils.format_datetime(o["modified"])))) for o in
+                        fs.FileSystemSource("/view", allow_custom=False).query(filters))
+        if linked != sorted((o["id"], str(stix2.utils.parse_into_datetime(o["modified"]))) for o in apply_common_filters(POP, filters)):
+            return False
         got = sorted((o["id"], str(o["modified"])) for o in store.source.query(filters))
         want = sorted((o["id"], str(stix2.utils.parse_into_datetime(o["modified"]))) for o in apply_common_filters(POP, filters))
         got = sorted((i, str(stix2.utils.parse_into_datetime(stix2.utils.format_datetime(m) if not isinstance(m, str) else m))) for i, m in
